@@ -1,21 +1,24 @@
+\* The same bounds with the log-id check the property needs: every invariant holds.
 SPECIFICATION MCSpec
 CONSTANTS
-  Author = {"a1", "a2"}
+  Author = {"a1"}
   Mallory = {"mx"}
   Log = {"l1", "l2"}
-  MaxSeq = 4
-  PrunePositions <- EvenPositions
-  MaxDeliver = 10
-  MaxInFlight = 3
-  ForgeBudget = 2
-  Classes <- PruneAttackClasses
+  MaxSeq = 2
+  PrunePositions <- LastOfFirstAuthor
+  MaxDeliver = 4
+  MaxInFlight = 1
+  ForgeBudget = 1
+  Classes <- OnlyCrossLog
   Defect_PruneAfterFailedIngest = FALSE
   Defect_PruneFlagSkipsLatestCheck = FALSE
   Defect_LogIdFromTopicUnchecked = FALSE
 INVARIANTS
-  Export
   C01_OnlyAuthenticStored
   C03_UniqueSeq
   C03_Linked
   C05_NoResurrection
+PROPERTIES
+  MC_C04_DeletesOnlyByValidPrune
+VIEW NoHistView
 CHECK_DEADLOCK FALSE
